@@ -99,14 +99,14 @@ theorem parseFreq_lt {keep : Bool} {p : Text} {fs : List Text} {n : Nat} (h : pa
     n < 4294967296 := by
   unfold parseFreq at h
   split at h
-  · cases h; omega
+  · cases h
   · split at h
+    · rename_i m hm
+      have hlt := parseU32_lt hm
+      have := Except.ok.inj h
+      subst this
+      split <;> omega
     · cases h
-    · split at h
-      · rename_i m hm
-        cases h
-        exact parseU32_lt hm
-      · cases h
 
 /-- every syllable the parser produces from a field without the first-tone mark spells and parses
     back (C13 `spell_parse`) -/
@@ -143,34 +143,20 @@ theorem parseSyls_sylOK : ∀ (ts : List Text) (syls : List Nat), parseSyls ts =
             · exact parseSyls_sylOK ts vs hvs (fun t' ht' => hno t' (List.mem_cons_of_mem _ ht')) x hx
           · cases h
 
-/-- **whatever `parse_line` accepts from a line without the first-tone mark is a well-formed record**, as
-    soon as its phrase is not empty and contains no comma / whitespace (the delimiter itself cannot
-    occur in it; other separators can, e.g. a tab with `' '`) -/
+/-- **whatever `parse_line` accepts from a line without the first-tone mark is a well-formed record**
+    (since the fixes of F27 the parser itself checks that the phrase is not empty and contains no comma /
+    whitespace, that there is a syllable, and one syllable per character) -/
 theorem parsed_wellFormed {d : Nat} {keep : Bool} {l : Text} {r : Rec} (h : parseLine d keep l = .ok r)
-    (hno : ∀ c ∈ l, c ≠ 713) (hne : r.phrase ≠ []) (hsep : ∀ c ∈ r.phrase, sylSep c = false) :
-    WellFormedRecord r := by
-  unfold parseLine at h
-  split at h
-  · cases h
-  · rename_i f0 fs _
-    cases hf : parseFreq keep (trimQ f0) (f0 :: fs) with
-    | error e => rw [hf] at h; cases h
-    | ok n =>
-      rw [hf] at h
-      cases hs : parseSyls ((tokens sylSep l).drop 2) with
-      | error e => rw [hs] at h; cases h
-      | ok syls =>
-        rw [hs] at h
-        have := Except.ok.inj h
-        subst this
-        have hso := parseSyls_sylOK _ _ hs (fun t ht c hc =>
-          hno c (mem_of_mem_tokens (List.mem_of_mem_drop ht) hc))
-        have he := trimQ_ends f0
-        apply wellFormed_iff.mpr
-        refine ⟨⟨hne, he.1, he.2, hsep⟩, parseFreq_lt hf, ?_⟩
-        intro c hc
-        have := hso c hc
-        simpa [sylOK] using this
+    (hno : ∀ c ∈ l, c ≠ 713) : WellFormedRecord r := by
+  obtain ⟨f0, fs, n, syls, _, hne, hsep, hf, hs, hsne, hlen, rfl⟩ := parseLine_ok_iff.mp h
+  have hso := parseSyls_sylOK _ _ hs (fun t ht c hc =>
+    hno c (mem_of_mem_tokens (List.mem_of_mem_drop ht) hc))
+  have he := trimQ_ends f0
+  apply wellFormed_iff.mpr
+  refine ⟨⟨hne, he.1, he.2, hsep⟩, parseFreq_lt hf, ?_, hsne, hlen⟩
+  intro c hc
+  have := hso c hc
+  simpa [sylOK] using this
 
 /-! ### the dump as a file -/
 
@@ -235,7 +221,7 @@ theorem not_sep_not_eol {c : Nat} (h : sylSep c = false) : c ≠ 10 ∧ c ≠ 13
 /-- no dumped line contains a line feed or a carriage return -/
 theorem dump_line_chars {r : Rec} (h : WellFormedRecord r) :
     (∀ c ∈ dumpLine r, c ≠ 10 ∧ c ≠ 13) ∧ (∀ c ∈ dumpCsvLine r, c ≠ 10 ∧ c ≠ 13) := by
-  obtain ⟨⟨_, _, _, psep⟩, hf, hs⟩ := wellFormed_iff.mp h
+  obtain ⟨⟨_, _, _, psep⟩, hf, hs, _, _⟩ := wellFormed_iff.mp h
   obtain ⟨_, dd, _⟩ := decimal_spec hf
   have hsyl : ∀ c ∈ r.syls, sylOK c = true := by
     intro c hc
